@@ -65,6 +65,11 @@ func VerifyFIDOU2FAttestationStatement(
 	if !ok {
 		return nil, fmt.Errorf("%w: only ECDSA keys are supported", ErrInvalidAttestationStatement)
 	}
+	if credentialKey, ok := ecdsaKey.CryptoPublicKey().(*ecdsa.PublicKey); !ok ||
+		credentialKey.Curve != elliptic.P256() || credentialKey.X.BitLen() > 256 || credentialKey.Y.BitLen() > 256 {
+		return nil, fmt.Errorf("%w: only P-256 credential keys with 32 byte coordinates are supported",
+			ErrInvalidAttestationStatement)
+	}
 	//    4c. Let publicKeyU2F be the concatenation 0x04 || x || y.
 	publicKeyU2F := ecdsaKey.RawX962ECC()
 
